@@ -111,8 +111,27 @@ def make_stub():
                     return i
             raise RuntimeError("candidate not found")
 
+        pairing_errors = []     # (where, candidate) whenever a candidate is evaluated on a sub-volume masked with another candidate's mask
+
+        def _pair(self, subvolume, i, where):
+            tpl, msk = self._get_template_and_mask_input()
+            msk = np.asarray(msk)
+            if msk.ndim != 4:
+                return
+            sv = np.asarray(subvolume, dtype=np.float64)
+            if sv.max() <= 0 or msk[i].max() <= 0 or not np.allclose(sv / sv.max(), msk[i] / msk[i].max(), atol=1e-3):
+                Scripted.pairing_errors.append((where, int(i)))
+
+        def _landscape(self, subvolume, template, max_shifts, quaternion, pos, backend):
+            i = self._cand_index(template)
+            self._pair(subvolume, i, "landscape")
+            out = np.zeros((3, 3, 3), dtype=np.float32)
+            out[1, 1, 1] = float(i)
+            return out
+
         def _optimize(self, subvolume, template, max_shifts, quaternion, pos, backend):
             i = self._cand_index(template)
+            self._pair(subvolume, i, "align")
             mid = int(round(float(np.asarray(subvolume).max()))) - 1
             sc = self.script[mid][i]
             return np.array([i, mid, 0], dtype=np.float32) * 0.01, self._DUMMY_QUAT, sc
@@ -147,9 +166,20 @@ def corr_scripted(ck, rng):
                 if rep % 2 == 0:
                     sc[int(rng.integers(0, n))] = 9.0
                 Stub.script = {0: sc}
-                model = Stub(tmpls if T > 1 else tmpls[0], rotations=rots)
+                # an explicit mask without symmetry: every searched rotation has its own (rotated) mask
+                mask = None
+                if rep % 2 == 1 or K > 1:
+                    mask = np.zeros((3, 3, 3), dtype=np.float32)
+                    mask[1, 1, 1] = mask[0, 1, 1] = mask[0, 0, 1] = mask[0, 0, 2] = 1.0
+                model = Stub(tmpls if T > 1 else tmpls[0], mask, rotations=rots)
                 img = np.ones((3, 3, 3), dtype=np.float32)
+                Stub.pairing_errors.clear()
                 res = model.align(img, (1, 1, 1))
+                ck.oracle_count("candidate_uses_own_mask", 1, 1 if (mask is not None and K > 1) else 0)
+                if Stub.pairing_errors:
+                    ck.violation(what=f"model.align: candidates {sorted(set(i_ for _, i_ in Stub.pairing_errors))} were scored on a sub-volume masked with another candidate's mask",
+                                 inp={"T": T, "K": K, "mask": mask.ravel().tolist()}, key={"site": "model.align", "symptom": "mask-pairing", "K>1": K > 1},
+                                 oracle="candidate_uses_own_mask")
                 q = np.asarray(model.quaternions)
                 qi = [i for i in range(len(q)) if np.allclose(q[i], res.quat)]
                 got = [int(res.label), qi[0] if qi else -1, int(round(float(res.shift[0]) * 100)), frac(float(res.score))]
@@ -195,7 +225,7 @@ def corr_loader(ck, rng):
         else:
             rots = rot_set(K, rng) if K > 1 else None
             kw = dict(rotations=rots) if rots is not None else {}
-        vias = ["loader"] if tag == "big" else ["loader", "group", "group-mapping", "group-hetero"]
+        vias = ["loader"] if tag == "big" else ["loader", "loader-align-list", "group", "group-mapping", "group-hetero"]
         for via in vias:
             if T == 1 and via != "loader":
                 continue
@@ -222,6 +252,10 @@ def corr_loader(ck, rng):
                         out = ld.align(tmpls[0], max_shifts=1.0, alignment_model=Stub, **kw)
                     else:
                         out = ld.align_multi_templates(tmpls, max_shifts=1.0, alignment_model=Stub, **kw)
+                    rows = [(out.molecules, [0, 1, 2, 3])]
+                elif via == "loader-align-list":
+                    # align() given several templates hands over to the multi-template search with all its options
+                    out = ld.align(tmpls if rng.random() < 0.5 else np.stack(tmpls), max_shifts=1.0, alignment_model=Stub, **kw)
                     rows = [(out.molecules, [0, 1, 2, 3])]
                 else:
                     grp = ld.groupby("grp")
